@@ -230,11 +230,19 @@ def gen_experiment(rng, faults=True, max_samples=5, max_beads=2, small=False, pl
         # healthy beads on the same instrument with matching settings
         good_beads = [b for b in exp['beads'] if b['fault'] is None and b['mef'] and b['Instrument ID'] == inst['ID']]
         volt = 500
+        mef_bias = False
         if good_beads:
             gb = rng.choice(good_beads)
             volt = files[gb['File Path']]['volt']
+            # calibrated rows sharing one set of beads are where rows can influence each other: half of the rows that
+            # could be calibrated are
+            mef_bias = rng.chance(0.5)
+            if mef_bias:
+                dt = 'I'
         for c in fl:
             u = rng.wchoice([(None, 3), ('Channel', 2), ('RFI', 2), ('a.u.', 2), ('MEF', 4)])
+            if mef_bias and c in gb['mef'] and rng.chance(0.7):
+                u = 'MEF'
             if u == 'MEF' and not (good_beads and c in gb['mef'] and dt == 'I'):
                 u = 'RFI'
             if u is not None:
